@@ -37,6 +37,8 @@ def to_coq_vi(case, obs):
     import epydemic as ep
     if case['model'] != MODEL or obs.get('skipped') or case.get('second'):
         return None
+    if case.get('vi_cut') is not None:
+        return None                     # edges removed during the run: outside the dynamic model, judged by D
     sp = compart.spec(MODEL)
     pv = case['pv']
     ok = obs['exception'] is None and obs['time'] is not None and bool(obs['snaps'])
